@@ -46,14 +46,18 @@ def globalsOfRun (r : Except String (List (String × Globals) × List (String ×
   | .ok ([(_, g)], _) => some g
   | _ => none
 
-/-- `X = v` defined in the package file itself, then the program. -/
-def localRun (fuel : Nat) (v : Expr) (prog : Program) :=
-  runPackages F fuel [] [("p", Stmt.assign "X" v :: prog)]
+/-- `X = v` defined in the package file itself, then the program (asp model at the facts `F'`). -/
+def localRunF (F' : Facts) (fuel : Nat) (v : Expr) (prog : Program) :=
+  runPackages F' fuel [] [("p", Stmt.assign "X" v :: prog)]
 
 /-- `X = v` defined in a subincluded file (so `X` arrives frozen), then the program. -/
-def importedRun (fuel : Nat) (v : Expr) (prog : Program) :=
-  runPackages F fuel [(label, [Stmt.assign "X" v])]
+def importedRunF (F' : Facts) (fuel : Nat) (v : Expr) (prog : Program) :=
+  runPackages F' fuel [(label, [Stmt.assign "X" v])]
     [("p", Stmt.expr (.call "subinclude" [(none, .str label)]) :: prog)]
+
+/-- … at the facts of this run. -/
+def localRun (fuel : Nat) (v : Expr) (prog : Program) := localRunF F fuel v prog
+def importedRun (fuel : Nat) (v : Expr) (prog : Program) := importedRunF F fuel v prog
 
 def errorOf {α : Type} : Except String α → Option String
   | .error e => some e
@@ -61,11 +65,13 @@ def errorOf {α : Type} : Except String α → Option String
 
 /-- The program over `X` evaluates on the locally defined value, and evaluates differently (or not at all) on the
     imported one.  (`false` when the local run fails; the witnesses below say which of the two cases they are.) -/
-def differs (fuel : Nat) (v : Expr) (prog : Program) : Bool :=
-  match globalsOfRun (localRun fuel v prog), globalsOfRun (importedRun fuel v prog) with
+def differsF (F' : Facts) (fuel : Nat) (v : Expr) (prog : Program) : Bool :=
+  match globalsOfRun (localRunF F' fuel v prog), globalsOfRun (importedRunF F' fuel v prog) with
   | some g, some g' => !(g == g')
   | some _, none => true
   | none, _ => false
+
+def differs (fuel : Nat) (v : Expr) (prog : Program) : Bool := differsF F fuel v prog
 
 /-- C18 at full strength. -/
 def Transparent : Prop := ∀ (fuel : Nat) (v : Expr) (prog : Program), differs fuel v prog = false
@@ -102,11 +108,22 @@ theorem C18_witness_dict_eq :
     (globalsOfRun (importedRun 60 vDict wDictEq)).isSome = true := by
   decide +kernel
 
+/-- The facts before `fix: builtins accept frozen lists`: every list builtin asserted `.(pyList)`. -/
+def oldBuiltins : Facts := { F with frozenOK := fun n => if listBuiltins.contains n then false else F.frozenOK n }
+
 set_option maxRecDepth 100000 in
-/-- `sorted`: the local run succeeds, the imported one fails in the builtin's own type assertion. -/
-theorem C18_witness_builtin_asserts_pylist :
-    differs 60 vList wSorted = true ∧ (globalsOfRun (localRun 60 vList wSorted)).isSome = true ∧
-    errorOf (importedRun 60 vList wSorted) = some "Argument seq must be a list, not list" := by
+/-- `sorted` **before the repair**: the local run succeeds, the imported one fails in the builtin's own type
+    assertion. -/
+theorem C18_old_builtin_asserts_pylist :
+    differsF oldBuiltins 60 vList wSorted = true ∧ (globalsOfRun (localRunF oldBuiltins 60 vList wSorted)).isSome = true ∧
+    errorOf (importedRunF oldBuiltins 60 vList wSorted) = some "Argument seq must be a list, not list" := by
+  decide +kernel
+
+set_option maxRecDepth 100000 in
+/-- … and today: both runs succeed with the same globals. -/
+theorem C18_fixed_builtin_sample :
+    differs 60 vList wSorted = false ∧ (globalsOfRun (localRun 60 vList wSorted)).isSome = true ∧
+    (globalsOfRun (importedRun 60 vList wSorted)).isSome = true := by
   decide +kernel
 
 set_option maxRecDepth 100000 in
@@ -196,10 +213,11 @@ theorem C18_builtins_lifted (F' : Facts) (name : String) (hn : name ∈ listBuil
     simp [callBuiltin, builtinSig, bindNative, bindNative.go, bindNative.fill, validate, hasTy, asListFor, h,
       range2, range3, callBuiltin.lens]
 
--- the hypothesis is satisfiable: a facts record in which `sorted` has been repaired
-example : ({ F with frozenOK := fun _ => true } : Facts).frozenOK "sorted" = true := rfl
+-- the hypothesis is satisfiable: today's table
+example : F.frozenOK "sorted" = true := by decide
 
-/-- … and one that the table marks as asserting `pyList` rejects the frozen wrapper, in every state. -/
+/-- … and one that the table marks as asserting `pyList` rejects the frozen wrapper, in every state (none today;
+    `oldBuiltins` is such a record). -/
 theorem C18_builtins_reject (F' : Facts) (name what : String) (h : F'.frozenOK name = false) (a o l c : Nat) (st : St) :
     ∃ e, (asListFor F' name what (.list true a o l c)).run st = .error e := by
   refine ⟨s!"{what} must be a list, not list", ?_⟩
@@ -211,11 +229,20 @@ theorem C18_builtins_reject (F' : Facts) (name what : String) (h : F'.frozenOK n
 def acceptsFrozenToday : List (String × Bool) :=
   (listBuiltins ++ ["map", "filter", "reduce", "len", "join"]).map fun n => (n, F.frozenOK n)
 
-/-- The table as extracted from the pinned source: only `join` (through `asStringList`) and `len` accept a frozen
-    list; `sorted reversed enumerate zip any all min max map filter reduce` do not. -/
+/-- The table as extracted from the pinned source: every list-taking builtin goes through `asList` (or, `join`,
+    through `asStringList`) and accepts a frozen list. -/
 theorem C18_table_today :
-    acceptsFrozenToday = [("sorted", false), ("reversed", false), ("enumerate", false), ("zip", false),
-      ("any", false), ("all", false), ("min", false), ("max", false), ("map", false), ("filter", false),
-      ("reduce", false), ("len", true), ("join", true)] := by decide
+    acceptsFrozenToday = [("sorted", true), ("reversed", true), ("enumerate", true), ("zip", true),
+      ("any", true), ("all", true), ("min", true), ("max", true), ("map", true), ("filter", true),
+      ("reduce", true), ("len", true), ("join", true)] := by decide
+
+/-- **Every list builtin of the model is transparent today**: the whole call gives the same computation on the
+    frozen wrapper as on the plain list — all heaps, all slices (`C18_builtins_lifted` at today's table). -/
+theorem C18_builtins_transparent (name : String) (hn : name ∈ listBuiltins) (a o l c : Nat) :
+    callBuiltin F name [(none, .list true a o l c)] = callBuiltin F name [(none, .list false a o l c)] := by
+  have h : F.frozenOK name = true := by
+    simp only [listBuiltins, List.mem_cons, List.mem_nil_iff, or_false] at hn
+    rcases hn with rfl | rfl | rfl | rfl | rfl | rfl | rfl | rfl <;> decide
+  exact C18_builtins_lifted F name hn h a o l c
 
 end PlzVerif.Props.C18
